@@ -3,6 +3,7 @@ import PolyVerif.Lemmas.GenbankLocus
 import PolyVerif.Lemmas.GenbankSub
 import PolyVerif.Lemmas.GenbankParse
 import PolyVerif.Lemmas.GenbankMulti
+import PolyVerif.Props.C02
 /-
 Property C01 — GenBank parsing returns exactly what a well-formed record states.
 
@@ -81,8 +82,10 @@ theorem source_organism_recovered (src org : Str) (bs bo : List Nat) (more : Lis
       ((block c!"SOURCE" src bs).drop 1 ++ (block c!"  ORGANISM" org bo ++ more)) = .ok (src, org) :=
   getSourceOrganism_blocks src org bs bo more hs ho hm
 
-/-- REFERENCE: the number, the range (also when the REFERENCE line is wrapped) and the optional AUTHORS,
-TITLE, JOURNAL, PUBMED, REMARK blocks are recovered for every wrapping, whatever keyword line `m` follows -/
+/-- REFERENCE: the number — the reference's own (`RRef.number`: any blank-free printable token, so gaps,
+repeats, `0`, letters), or its position when it states none (`refNumber`) —, the range (also when the
+REFERENCE line is wrapped) and the optional AUTHORS, TITLE, JOURNAL, PUBMED, REMARK blocks are recovered for
+every wrapping, whatever keyword line `m` follows -/
 theorem reference_recovered (i : Nat) (r : RRef) (ℓ : RefLayout) (m : Str) (rest : List Str)
     (h : wfRef r = true) (hm : quickMetaCheck m = .ok true) :
     getReference (split ((refLines i r ℓ).headD []) c!" ") ((refLines i r ℓ).drop 1 ++ m :: rest) = .ok (toRef i r) :=
@@ -90,6 +93,8 @@ theorem reference_recovered (i : Nat) (r : RRef) (ℓ : RefLayout) (m : Str) (re
 
 example : wfRef { range := c!"(bases 1 to 2686)", authors := c!"Norrander J, Kempe T, Messing J",
                   title := c!"see the TITLE page SOURCE", journal := c!"Gene. 1983 Dec;26(1):101-6." } = true := by decide
+example : (toRef 0 { number := c!"7", range := c!"(sites)" }).index = c!"7" ∧ (toRef 4 { range := c!"(sites)" }).index = c!"5"
+    ∧ wfRef { number := c!"0" } = true ∧ wfRef { number := c!"1 2" } = false := by decide
 
 /-! ## FEATURES -/
 
@@ -161,6 +166,26 @@ theorem parse_layout_last_wins (r : GbRec) (ℓ : RecLayout) (finalNewline : Boo
     parse (layoutText r ℓ finalNewline) = .ok (toSequenceM r) :=
   parse_layoutText_loose r ℓ finalNewline h
 
+/-- **No location text of the domain makes `parseLocation` panic.**  `Genbank.parse` leaves the call
+`parseLocation(feature.GbkLocationString)` to property C02's model; in Go a panic there is a panic of `Parse`, and
+the driver mirrors it (`Driver.C01.withLocPanic` turns an `ok` of the `Parse` model into `panic` when a feature
+it read has a location text on which `Location.parseLocation` panics).  For every record of the judge's domain
+(`wfLoose`: repeated qualifier keys included) and every layout, the parser returns the stated record and
+`parseLocation` panics on none of the location texts in it, by `Props.C02.parseLocation_total`
+(`isLocText s → parseLocation s ≠ .panic`): on an in-domain case that branch of the driver is never the one
+that decides. -/
+theorem parse_layout_locations_total (r : GbRec) (ℓ : RecLayout) (finalNewline : Bool) (h : wfLoose r = true) :
+    ∃ s, parse (layoutText r ℓ finalNewline) = .ok s
+      ∧ ∀ f ∈ s.features, Location.parseLocation f.gbkLoc ≠ .panic := by
+  refine ⟨toSequenceM r, parse_layoutText_loose r ℓ finalNewline h, ?_⟩
+  intro f hf
+  simp only [toSequenceM, List.mem_map] at hf
+  obtain ⟨g, hg, rfl⟩ := hf
+  simp only [wfLoose, Bool.and_eq_true, List.all_eq_true] at h
+  have hw := h.1.1.2 g hg
+  simp only [wfFeatureLoose, Bool.and_eq_true] at hw
+  exact Props.C02.parseLocation_total _ hw.2
+
 /-- a small record exercising every section: two-digit length, a locus called `linear` that is circular,
 wrapped definition, KEYWORDS left out, DBLINK before KEYWORDS, CONTIG after the feature table, a reference whose journal continues with the word SOURCE, a COMMENT continuing with the
 word TITLE, a multi-line location without qualifier, an `order(…)` location with a value-less qualifier, a feature whose value
@@ -169,7 +194,8 @@ def exampleRec : GbRec :=
   { locus := { name := c!"linear", len := c!"12", mol := c!"DNA", topo := some .circular, division := c!"BCT", date := c!"01-JAN-2020" }
     definition := c!"a small test record", accession := c!"X1", version := c!"X1.1", keywords := []
     source := c!"synthetic construct", organism := c!"synthetic construct"
-    refs := [{ range := c!"(bases 1 to 12)", authors := c!"A B", journal := c!"open SOURCE code", pubmed := c!"123" }]
+    refs := [{ range := c!"(bases 1 to 12)", authors := c!"A B", journal := c!"open SOURCE code", pubmed := c!"123" },
+             { number := c!"7", title := c!"own number, no range" }, { number := c!"7", range := c!"(sites)" }, { number := c!"0" }]
     extras := [(c!"DBLINK", c!"BioProject: PRJNA1"), (c!"COMMENT", c!"see TITLE page"), (c!"CONTIG", c!"join(X1.1:1..12)")]
     features := [{ key := c!"gene", loc := c!"join(1..2,3..4)" },
                  { key := c!"misc_feature", loc := c!"order(1..5,7..9)", quals := [(c!"pseudo", [])] },
@@ -178,7 +204,7 @@ def exampleRec : GbRec :=
     seq := c!"acgtacgtacgt" }
 
 def exampleLay : RecLayout :=
-  { definition := [7], refs := [{ journal := [4] }], extras := [[], [3], []], extraCuts := [0, 0, 0, 1, 0, 0, 1], omitKeywords := true
+  { definition := [7], refs := [{ journal := [4] }, { trailGap := true }, {}, {}], extras := [[], [3], []], extraCuts := [0, 0, 0, 1, 0, 0, 1], omitKeywords := true
     feats := [{ loc := [9] }, { styles := [2] }, { quals := [[1], [2]], styles := [0, 0, 0, 1] }] }
 
 example : WF exampleRec ∧ noSlashEnd exampleRec exampleLay = true := by
